@@ -35,9 +35,35 @@ pub fn components() -> Vec<Comp> {
     v
 }
 
-pub fn n_cases(ctx: &Ctx) -> u64 {
+fn base_cases(ctx: &Ctx) -> u64 {
     let reps = if ctx.thorough() { 40 } else { 4 };
     components().len() as u64 * 2 * ctx.scaled(reps)
+}
+
+/// Extra cases for the stateful filters alone (cheap): dense opcode soups longer than the filter
+/// readers' internal buffer, so that opcode candidates straddle every internal call boundary.
+fn filter_cases(ctx: &Ctx) -> u64 {
+    let reps = if ctx.thorough() { 300 } else { 24 };
+    crate::props::c02::BCJ_IDS.len() as u64 * ctx.scaled(reps)
+}
+
+pub fn n_cases(ctx: &Ctx) -> u64 {
+    base_cases(ctx) + filter_cases(ctx)
+}
+
+/// Bytes drawn from a tiny alphabet of opcode bytes and operand-top bytes of the architecture.
+fn opcode_soup(r: &mut Rng, id: u8, len: usize) -> Vec<u8> {
+    let alphabet: &[u8] = match id {
+        0x04 => &[0xE8, 0xE9, 0x00, 0xFF, 0x12, 0x7F, 0x01],
+        0x05 => &[0x48, 0x4B, 0x01, 0x00, 0xFD, 0x03],
+        0x06 => &[0x10, 0x11, 0x00, 0x05, 0xA0, 0xE0],
+        0x07 => &[0xEB, 0x00, 0xFF, 0x10, 0xEA],
+        0x08 => &[0xF0, 0xF7, 0xF8, 0xFF, 0x00, 0x12],
+        0x09 => &[0x40, 0x7F, 0x00, 0xC0, 0xFF, 0x3F],
+        0x0A => &[0x94, 0x97, 0x90, 0x00, 0xFF, 0x1F],
+        _ => &[0xEF, 0x6F, 0x17, 0x97, 0x00, 0x80, 0x01],
+    };
+    (0..len).map(|_| *r.pick(alphabet)).collect()
 }
 
 fn opts(r: &mut Rng) -> LZMAOptions {
@@ -100,10 +126,22 @@ fn nonempty_writes(partition: &[usize], len: usize) -> usize {
 }
 
 pub fn run_case(ctx: &Ctx, idx: u64) -> Vec<CaseOut> {
+    let mut r = Rng::new(mix(ctx.seed, 0xC07_0000 + idx));
+    if idx >= base_cases(ctx) {
+        // reader side of one BCJ filter on an opcode soup (the writer side of the raw filters is
+        // covered by the known finding and the base cases)
+        let k = (idx - base_cases(ctx)) as usize;
+        let id = crate::props::c02::BCJ_IDS[k % crate::props::c02::BCJ_IDS.len()].0;
+        let comp = Comp::Bcj(id);
+        let len = 4000 + r.usize_below(if ctx.thorough() { 40_000 } else { 14_000 });
+        let data = if r.chance(3, 4) { opcode_soup(&mut r, id, len) } else { crate::props::c11::dense_code(&mut r, id, len) };
+        let o = opts(&mut r);
+        let cname = comp.name();
+        return reader_side(ctx, &comp, &cname, &o, &data, &mut r);
+    }
     let comps = components();
     let comp = &comps[(idx / 2) as usize % comps.len()];
     let side = idx % 2;
-    let mut r = Rng::new(mix(ctx.seed, 0xC07_0000 + idx));
     let o = opts(&mut r);
     let max = if ctx.thorough() { 300_000 } else { 60_000 };
     let data = gen_input(comp, &mut r, max);
